@@ -60,7 +60,8 @@ abbrev Schema := List Def
 structure Cfg where
   fieldDirUsesUnchecked : Bool := true    -- D28: uses on fields, field arguments, input fields are not location / argument checked
   argLocIsInputField : Bool := true       -- D29: an argument is located as INPUT_FIELD_DEFINITION
-  dupScalarDropped : Bool := true         -- D43: a scalar whose name is taken is silently dropped
+  dupScalarDropped : Bool := true         -- D43: a scalar whose name is taken (by any type) is silently dropped
+  dupScalarOverScalar : Bool := true      -- D43s: a scalar whose name is taken by a scalar is silently dropped (the suite declares a Go-registered scalar again)
   dirArgWrapperAccepted : Bool := true    -- D44: directive arguments: List / NonNull of anything pass (`InCoercer`)
   subtypeNarrow : Bool := true            -- D45: covariance only for `T` vs `T!`, lists, non-null — not `Obj!` under `Iface`
 
@@ -151,10 +152,11 @@ def ruleUnique (cfg : Cfg) (s : Schema) : Bool :=
   let tnames := (s.filter (fun d => !d.isDirective && !(match d with | .schemaBlock .. => true | _ => false))).map (·.name)
   let dropScalarDups := fun (ns : List String) =>
     -- D43: a later scalar with a taken name is ignored
-    if cfg.dupScalarDropped then
+    if cfg.dupScalarDropped || cfg.dupScalarOverScalar then
       (s.zipIdx.filter (fun p => !p.1.isDirective && !(match p.1 with | .schemaBlock .. => true | _ => false) &&
         !((match p.1 with | .scalar .. => true | _ => false) &&
-          (s.take p.2).any (fun e => !e.isDirective && e.name == p.1.name)))).map (·.1.name)
+          (s.take p.2).any (fun e => !e.isDirective && e.name == p.1.name &&
+            (cfg.dupScalarDropped || (match e with | .scalar .. => true | _ => false)))))).map (·.1.name)
     else ns
   nodup (dropScalarDups tnames) && tnames.all (fun n => !builtinScalars.contains n) &&
   nodup ((s.filter (·.isDirective)).map (·.name)) &&
@@ -233,6 +235,32 @@ def isSubTypeCode (s : Schema) : Nat → TRef → TRef → Bool
     typeEq target sub ||
     (match peelNonNull sub with | some b => typeEq target b | none => false) ||
     subStructural s (isSubTypeCode s fuel) target sub
+
+/-- nesting depth of a type expression -/
+def TRef.depth : TRef → Nat
+  | .named _ => 0
+  | .list t => t.depth + 1
+  | .nonNull t => t.depth + 1
+
+/-- `Object.isSubType` after the repair of D45: equal; or the implementation is `U!` and `U` satisfies the
+interface type with its own `!` removed; or the union / interface / list cases.  Fuel stands for the Go
+recursion, which descends the implementation's type (`sub`) at every call. -/
+def isSubTypeFixed (s : Schema) : Nat → TRef → TRef → Bool
+  | 0, _, _ => false
+  | fuel + 1, target, sub =>
+    typeEq target sub ||
+    (match sub with
+     | .nonNull b => (match target with
+        | .nonNull t => isSubTypeFixed s fuel t b
+        | t => isSubTypeFixed s fuel t b)
+     | _ => (match target, sub with
+        | .named a, .named b =>
+          (match findType s a, findType s b with
+           | some (.union _ ms _), _ => ms.contains b
+           | some (.iface ..), some (.object _ is _ _) => is.contains a
+           | _, _ => false)
+        | .list t, .list u => isSubTypeFixed s fuel t u
+        | _, _ => false))
 
 /-- R6: objects provide every interface field with a compatible type and arguments -/
 def ruleInterfaces (cfg : Cfg) (s : Schema) : Bool :=
@@ -345,7 +373,7 @@ def checkAll (cfg : Cfg) (s : Schema) : Bool :=
 
 /-- the property's notion: all rules, no deviation -/
 def strict : Cfg :=
-  { fieldDirUsesUnchecked := false, argLocIsInputField := false, dupScalarDropped := false,
+  { fieldDirUsesUnchecked := false, argLocIsInputField := false, dupScalarDropped := false, dupScalarOverScalar := false,
     dirArgWrapperAccepted := false, subtypeNarrow := false }
 
 def wellFormed (s : Schema) : Bool := checkAll charMap tokenClass strict s
